@@ -34,7 +34,7 @@ func init() {
 			{Name: "sweep-splits", Run: c05Sweep, SweepN: c05SweepN, QuickSweep: true, Exhaustive: true,
 				SweepNote: "5 fixed short streams (<=512 B): every single split point, the all-1-byte fragmentation, every truncation offset (EOF and read error), and a header declaring each length 0..19 at each message position"},
 		},
-		MustProbes: []string{"pooled-body", "fresh-body", "split-in-header", "split-in-body", "badlen", "trunc-in-header", "trunc-in-body", "trunc-after-header", "conn-bufio-multi", "multi-conn-interleaved", "read-deadline-passed", "sequential-connections"},
+		MustProbes: []string{"pooled-body", "fresh-body", "split-in-header", "split-in-body", "badlen", "trunc-in-header", "trunc-in-body", "trunc-after-header", "conn-bufio-multi", "multi-conn-interleaved", "read-deadline-passed", "sequential-connections", "close-notify-during-reads", "last-bytes-with-eof"},
 	})
 }
 
@@ -679,7 +679,35 @@ func c05Conn(e *Env) {
 		}
 		return true
 	}
+	// somebody may ask for CloseNotify along the way (reads then go through the library's
+	// copier and pipe), and the last bytes may come in the same Read as the end of the stream
+	cnAt := -1
+	if t.Chance(1, 3) {
+		cnAt = t.Draw(len(data) + 1)
+	}
+	endWithData := endKind != "rst" && t.Chance(1, 4)
+	askCN := func() {
+		if cn, ok := conn.(diam.CloseNotifier); ok {
+			done := make(chan struct{})
+			go func() { cn.CloseNotify(); close(done) }()
+			e.Quiesce()
+			select {
+			case <-done:
+			default:
+				e.Fail("C05/close-notify-blocked", "CloseNotify did not return")
+			}
+			e.Act("close-notify", "at %d", delivered)
+			e.Probe("close-notify-during-reads")
+		}
+		cnAt = -1
+	}
 	for delivered < len(data) && e.Step() {
+		if cnAt >= 0 && delivered >= cnAt {
+			askCN()
+			if e.Failed() {
+				return
+			}
+		}
 		var k int
 		switch t.Pick(2, 3, 3, 2) {
 		case 0:
@@ -697,6 +725,9 @@ func c05Conn(e *Env) {
 		if k > 4096 || (k == len(data)-delivered && len(msgs) > 1 && k > len(msgs[len(msgs)-1].bytes)) {
 			e.Probe("conn-bufio-multi")
 		}
+		if endWithData && delivered+k == len(data) {
+			break // the last fragment arrives together with the end of the stream (below)
+		}
 		sc.Deliver(data[delivered : delivered+k])
 		delivered += k
 		e.Act("deliver", "%d", k)
@@ -706,6 +737,14 @@ func c05Conn(e *Env) {
 		if !check() {
 			return
 		}
+	}
+	if endWithData && delivered < len(data) && !e.Failed() {
+		sc.Deliver(data[delivered:])
+		delivered = len(data)
+		sc.EndReadWithData(io.EOF)
+		e.Act("deliver-with-eof", "")
+		e.Probe("last-bytes-with-eof")
+		e.Quiesce()
 	}
 	if delivered < len(data) {
 		sc.Deliver(data[delivered:])
